@@ -39,7 +39,8 @@ def excite(p, kind, rng, which):
     ex = {}
     if kind == "m":
         ex["J"] = {i: rng.choice([0.0, 1.0, -2.0]) for i in range(len(p.blockprops))}
-        ex["I"] = {i: rng.choice([1.0, -3.0, 0.5]) for i in range(len(p.circprops))}
+        # (a circuit may carry no current in one of the two excitation sets: "0 A imposed" is an excitation value like any other)
+        ex["I"] = {i: rng.choice([1.0, -3.0, 0.5, 0.0]) for i in range(len(p.circprops))}
         ex["A"] = (rng.choice([0.0, 1e-3]), rng.choice([0.0, 2e-3]), rng.choice([0.0, -1e-3]))
         ex["Hc"] = {i: rng.choice([0.0, 0.0, 1e5]) for i in range(len(p.blockprops))}
         ex["pt"] = rng.choice([0.0, 0.25])
@@ -140,7 +141,26 @@ def main(argv):
             p0 = base_problem(kind, rng, axi, harmonic)
             if harmonic:
                 p0.freq = rng.choice([50.0, 400.0])
+            if kind == "m" and not any(l_["circ"] == 0 for l_ in p0.labels):
+                # every magnetics triple has a circuit with a region (the generator draws 0-2 circuits)
+                if not p0.circprops:
+                    p0.circprops = [dict(name="c0", I_re=1.0, type=rng.choice([0, 1]))]
+                lab0_ = p0.labels[1 if len(p0.labels) > 1 else 0]
+                lab0_["circ"] = 0
+                lab0_["turns"] = 1
             e1, e2 = excite(p0, kind, rng, 1), excite(p0, kind, rng, 2)
+            if kind == "m" and p0.circprops and any(l_["circ"] == 0 for l_ in p0.labels):
+                # the first circuit carries a current in S1 and none in S2 ("0 A imposed" is an excitation value like any other), and in
+                # time-harmonic problems its regions are solid conductors, so that its voltage gradient is an unknown of the system
+                if not e1["I"][0]:
+                    e1["I"][0] = 1.0
+                e2["I"][0] = 0.0
+                if harmonic:
+                    for l_ in p0.labels:
+                        if l_["circ"] == 0:
+                            l_["turns"] = 1
+                            if not p0.blockprops[l_["block"]].get("Sigma"):
+                                p0.blockprops[l_["block"]]["Sigma"] = 10.0
             a, b = rng.choice([2.0, -1.5, 0.25]), rng.choice([1.0, 3.0, -0.5])
             e3 = combine(e1, e2, a, b)
             ez = combine(e1, e2, 0.0, 0.0)
@@ -278,6 +298,23 @@ def main(argv):
                         errf = abs(gf[0] - gf[1]) / scf
                         stats.setdefault("axi_asymmetry_coarse_fine", []).append((err, errf))
                         mesh_level = errf < 0.5 * err and err < 0.2
+                        if max(err, errf) < 1e-4:
+                            # both far below the asymmetries of this finding (1e-4 ... 1e-2): a pair that happens to be nearly symmetric on
+                            # the coarse mesh (4.6e-6, then 2.4e-5 on the fine one) does not have to get better before it counts as mesh-level
+                            mesh_level = True
+                        if not mesh_level and errf < 0.8 * err and err < 0.2:
+                            # slow but steady: with stranded coils next to the axis the asymmetry falls by 0.6 per refinement step instead of
+                            # 0.25 (8.4e-4 -> 5.2e-4 observed); one more level must continue the decrease
+                            pff = copy.deepcopy(p0)
+                            for lab_ in pff.labels:
+                                if lab_["meshsize"] > 0:
+                                    lab_["meshsize"] *= 0.125
+                            gff, _ = couplings(pff, "g")
+                            if gff.get(0) is not None and gff.get(1) is not None:
+                                scff = max(abs(gff.get(("self", 0)) or 0), abs(gff.get(("self", 1)) or 0), abs(gff[0]), abs(gff[1]), 1e-300)
+                                errff = abs(gff[0] - gff[1]) / scff
+                                stats["axi_asymmetry_coarse_fine"][-1] = (err, errf, errff)
+                                mesh_level = errff < 0.8 * errf
                 if not (err <= 1e-6):
                     ck.violation("reciprocity:m:axi:mesh-level" if mesh_level else
                                  "reciprocity:%s:%s" % (kind, "axi" if axi else "planar"),
